@@ -71,6 +71,11 @@ type ZPersonE struct {
 	Name string
 }
 
+type zKey struct {
+	Path string
+	N    int
+}
+
 func ZPtr(e *E) *E         { return &E{K: "ptr", A: []*E{e}} }
 func ZTime(u int64) *E     { return &E{K: "time", I: u} }
 func ZT(e *E, m string) *E { cp := *e; cp.M = m; return &cp }
@@ -295,6 +300,19 @@ func zooGo(e *E, variant int) interface{} {
 					k = uint8(i)
 				}
 				out[k] = zooGo(e.A[i], variant)
+			}
+			return out
+		case "map[structkey]":
+			// struct keys whose printed forms share a long prefix and differ at the end
+			out := map[zKey]interface{}{}
+			for _, i := range idx {
+				out[zKey{Path: strings.Repeat("segment/", 20) + "common", N: len(e.Ks[i])*10 + i}] = zooGo(e.A[i], variant)
+			}
+			return out
+		case "map[arraykey]":
+			out := map[[3]int]interface{}{}
+			for _, i := range idx {
+				out[[3]int{7, 7, i}] = zooGo(e.A[i], variant)
 			}
 			return out
 		case "map[mixed2]":
